@@ -13,7 +13,7 @@ TEXT = {
 
 
 # properties whose checks are finished and reviewed; everything else is listed as not yet claimed
-RELEASED = ["C02", "C03", "C05", "C08", "C09", "C11", "C12", "C13", "C16"]
+RELEASED = ["C02", "C03", "C05", "C08", "C09", "C10", "C11", "C12", "C13", "C16"]
 
 
 def main():
